@@ -48,6 +48,8 @@ T2S = [-1, 0, 1, 2, 3, 4, 5, 6, 7]
 LONG = ["a", "bbb", "cc-long-name", "d"]          # differing lengths, sorted like their indices
 
 
+MIXOBJ = [1, "1", "b"]                            # object-dtype labels: the int 1 and the string "1" are different groups
+MIXLIST = [7, "a", "b"]                           # plain lists mixing int and str: NumPy turns all of them into strings
 BIGID = 2 ** 53                                   # 64-bit ids: neighbours are NOT distinct float64 values
 
 
@@ -56,10 +58,19 @@ def gname(i, style):
         return LONG[int(i)]
     if style == "bigint":
         return np.int64(BIGID + int(i))
+    if style == "mixobj":
+        return MIXOBJ[int(i)]
+    if style == "mixlist":
+        return MIXLIST[int(i)]
     return f"g{i}" if style == "str" else int(i)
 
 
-def gidx(x):
+def gidx(x, style=None):
+    if style == "mixobj":
+        return [j for j, v in enumerate(MIXOBJ) if type(v) is type(x) and v == x or
+                (isinstance(v, int) and isinstance(x, (int, np.integer)) and not isinstance(x, bool) and v == x)][0]
+    if style == "mixlist":
+        return [str(v) for v in MIXLIST].index(str(x))
     if str(x) in LONG:
         return LONG.index(str(x))
     if isinstance(x, (int, np.integer)) and int(x) >= BIGID:
@@ -76,6 +87,11 @@ def build_g(o, style, via="init", sdt=float, names=None):
     ns = np.array([G(p[0]) for p in o["neg"]], dtype=float).astype(sdt)
     pg = np.array([gname(p[1], style) for p in o["pos"]])
     ng = np.array([gname(p[1], style) for p in o["neg"]])
+    if style == "mixobj":
+        pg = np.array([gname(p[1], style) for p in o["pos"]] + [None], dtype=object)[:-1]
+        ng = np.array([gname(p[1], style) for p in o["neg"]] + [None], dtype=object)[:-1]
+    elif style == "mixlist":
+        pg, ng = [gname(p[1], style) for p in o["pos"]], [gname(p[1], style) for p in o["neg"]]
     if via == "from_labels_sorted":
         # the documented fast path: data already ordered by score (stable, so the two classes interleave)
         labels = np.array([1] * len(ps) + [0] * len(ns))
@@ -91,13 +107,17 @@ def build_g(o, style, via="init", sdt=float, names=None):
                                        np.concatenate([pg, ng])[order], pos_label=1,
                                        score_class=o["sc"], equal_class=o["ec"])
     kw = {} if not names else {"group_names": [gname(i, style) for i in names]}
+    if names and style == "mixlist":
+        kw = {"group_names": tuple(gname(i, style) for i in names)}
+    if names and style == "mixobj":
+        kw = {"group_names": np.array([gname(i, style) for i in names] + [None], dtype=object)[:-1]}
     return GroupScores(ps, ns, pos_groups=pg, neg_groups=ng, score_class=o["sc"], equal_class=o["ec"], **kw)
 
 
-def alpha_g(s, inv):
-    return {"pos": [[inv.get(float(x), -999), gidx(g)] for x, g in zip(s.pos, s.pos_groups)],
-            "neg": [[inv.get(float(x), -999), gidx(g)] for x, g in zip(s.neg, s.neg_groups)],
-            "groups": [gidx(g) for g in s.groups], "sc": s.score_class.value, "ec": s.equal_class.value}
+def alpha_g(s, inv, style=None):
+    return {"pos": [[inv.get(float(x), -999), gidx(g, style)] for x, g in zip(s.pos, s.pos_groups)],
+            "neg": [[inv.get(float(x), -999), gidx(g, style)] for x, g in zip(s.neg, s.neg_groups)],
+            "groups": [gidx(g, style) for g in s.groups], "sc": s.score_class.value, "ec": s.equal_class.value}
 
 
 EMPTY_G = {"pos": [], "neg": [], "groups": [], "sc": "pos", "ec": "pos"}
@@ -111,6 +131,7 @@ class Beh:
     def __init__(self, ids, cid):
         self.ids, self.cid, self.evs = ids, cid, []
         self.inv = sd.inv_map(G, -2, 300)
+        self.style = None
 
     def ev(self, op, **kw):
         e = {"id": next(self.ids), "cid": self.cid, "beh": self.cid, "op": op, "exc": "", "conc": "ident"}
@@ -122,9 +143,10 @@ class Beh:
         e = self.ev("NewG", h=h, args={"pos": o["pos"], "neg": o["neg"], "sc": o["sc"], "ec": o["ec"],
                                        "names": list(names or [])},
                     via=via, style=style, post=dict(EMPTY_G), score_dtype=np.dtype(sdt).name)
+        self.style = style if style in ("mixobj", "mixlist") else None
         try:
             s = build_g(o, style, via, sdt, names)
-            e["post"] = alpha_g(s, self.inv)
+            e["post"] = alpha_g(s, self.inv, self.style)
             return s
         except Exception as ex:  # noqa
             e["exc"] = sd.exc_str(ex)
@@ -134,7 +156,7 @@ class Beh:
         e = self.ev("SwapG", h=h, h2=h2, post=dict(EMPTY_G))
         try:
             s2 = s.swap()
-            e["post"] = alpha_g(s2, self.inv)
+            e["post"] = alpha_g(s2, self.inv, self.style)
             return s2
         except Exception as ex:  # noqa
             e["exc"] = sd.exc_str(ex)
@@ -143,7 +165,7 @@ class Beh:
     def getitem(self, s, h, g, style):
         e = self.ev("GetItem", h=h, g=int(g), out={"pos": [], "neg": [], "sc": "pos", "ec": "pos", "ep": -1, "en": -1})
         try:
-            w = s[gname(g, style)]
+            w = s[str(gname(g, style)) if style == "mixlist" else gname(g, style)]
             e["out"] = sd.alpha_obj(w, self.inv)
         except Exception as ex:  # noqa
             e["exc"] = sd.exc_str(ex)
@@ -183,7 +205,7 @@ class Beh:
                 cfg = BootstrapConfig(sampling_method=c["method"],
                                       stratified_sampling=None if c["strat"] == "none" else c["strat"])
                 smp = s.bootstrap_sample(cfg)
-                built["sample"] = alpha_g(smp, self.inv)
+                built["sample"] = alpha_g(smp, self.inv, self.style)
             except rngshim.ScriptMismatch as ex:
                 built["exc"] = "ScriptMismatch: " + str(ex)
                 smp = None
@@ -368,6 +390,26 @@ def run(ctx: core.Ctx):
                 b.getitem(s_, 1, g_, style)
             b.group_cm(s_, 1, [0, 1, 2, 3, 5, 7, 9, 11, -1], with_metrics=False)
         ev_big += b.evs
+    # labels of mixed types: object arrays in which the int 1 and the string "1" are different groups, and
+    # plain lists mixing ints and strings (NumPy turns those into strings, names included); explicit names
+    for k in range(10 if ctx.tier == "quick" else 60):
+        style = ["mixobj", "mixlist"][k % 2]
+        ng = 3
+        pos = [[int(rnd.randint(0, 6)), int(i % ng)] for i in range(int(rnd.randint(ng, 7)))]
+        neg = [[int(rnd.randint(0, 6)), int((i + 1) % ng)] for i in range(int(rnd.randint(ng, 7)))]
+        a = {"pos": pos, "neg": neg, "sc": ["pos", "neg"][(k // 2) % 2], "ec": ["pos", "neg"][(k // 4) % 2]}
+        names = [[0, 1, 2], [2, 0, 1]][(k // 2) % 2]
+        b = Beh(ids, len(cases))
+        cases.append({"kind": "seeded", "input": a, "cfg": {"method": "replacement", "strat": "by_group"},
+                      "np_seed": int(ctx.seed + k), "style": style, "via": "init", "names": names})
+        s_ = b.new(a, style, names=names)
+        if s_ is not None:
+            for g_ in range(ng):
+                b.getitem(s_, 1, g_, style)
+            b.group_cm(s_, 1, [0, 1, 2, 3, 5, 7, 9, 11, -1], with_metrics=False)
+            # (no sampling here: by_group sampling rebuilds the label arrays with np.full / concatenate, which
+            #  turns mixed-type object labels into strings - labels 1 and "1" then coincide; see DESIGN section 6)
+        ev_big += b.evs
     # one class completely empty, 64-bit integer group ids (neighbouring ids are one float64)
     for k in range(8 if ctx.tier == "quick" else 40):
         ng = 2 + k % 2
@@ -421,7 +463,7 @@ def replay(ctx: core.Ctx, body):
         s = b.new(c["input"], c.get("style", "int"), via=c.get("via", "init"), sdt=np.dtype(c.get("sdt", "float64")).type,
                   names=c.get("names"))
         if s is not None:
-            if c.get("via") == "from_labels_sorted" or c.get("style") == "bigint":
+            if c.get("via") == "from_labels_sorted" or c.get("style") in ("bigint", "mixobj", "mixlist"):
                 for g_ in sorted({p_[1] for p_ in c["input"]["pos"] + c["input"]["neg"]}):
                     b.getitem(s, 1, g_, c.get("style", "int"))
                 b.group_cm(s, 1, [0, 1, 2, 3, 5, 7, 9, 11, -1], with_metrics=False)
